@@ -87,6 +87,9 @@ ChainChecked(r) ==
               ELSE x.has /\ x.hase = "" /\ x.ce = "" /\ x.cbe = ""
                    /\ x.c = calls[Len(calls)].c /\ x.cb = calls[Len(calls)].c)
                \/ Report("chain.lookup.result", "lookups", j, 0, IF hit = {} THEN NotFound ELSE calls[Len(calls)].c))
+         \* get_system names the member that answered
+         /\ ((x.owner = (IF hit = {} THEN 0 ELSE Len(calls)))
+               \/ Report("chain.lookup.owner", "lookups", j, 0, IF hit = {} THEN 0 ELSE Len(calls)))
          \* each member answers as its file set says
          /\ \A c \in 1..Len(calls) :
               LET mfs == MemberFs(r, calls[c].m) want == Lookup(fold, mfs, calls[c].argc) IN
@@ -110,6 +113,11 @@ ChainChecked(r) ==
               LET want == Compose(fold, pfxs, lists) IN
               ((PairSet(fold, got) = PairSet(fold, want) /\ NoDupKeys(fold, got))
                  \/ Report("chain.walk.compose", "walks", j, 0, want)))
+         \* walk_folder_repeat: the same lists, every occurrence kept, in chain order
+         /\ (Len(calls) = M =>
+              LET want == ComposeRepeat(fold, pfxs, lists) rep == ListOf(w.rep) IN
+              ((Len(rep) = Len(want) /\ \A k \in 1..Len(rep) : Key(fold, rep[k].n) = Key(fold, want[k].n) /\ rep[k].c = want[k].c)
+                 \/ Report("chain.walk.repeat", "walks", j, 0, want)))
          \* each member lists what its file set says
          /\ \A c \in 1..Len(calls) :
               LET mfs == MemberFs(r, calls[c].m) want == WalkKeys(fold, mfs, calls[c].argc)
